@@ -312,9 +312,7 @@ Section Asm.
                 rewrite W2. rewrite E at 1. cbn beta iota. rewrite PS. cbn [mem_c existsb negb andb].
                 cbn [unparse_items2 flat_map app]. fold (unparse_items2 its').
                 rewrite E at 1. cbn [app]. rewrite <- U. rewrite app_nil_r in T. rewrite T.
-                rewrite str_eqb_refl. cbn [ok_args2 nabs filter length andb slots_ok].
-                destruct (test_specials_spec _ _ _ _ T) as [E0'|[_ L]]; [discriminate|].
-                apply Nat.leb_le. lia.
+                rewrite str_eqb_refl. reflexivity.
           -- destruct (asm specs [] [] [] l) as [[its' tr']|] eqn:A; [|discriminate]. injection H as <- <-.
              pose proof (asm_unparse l [] [] [] its' tr' G (or_introl eq_refl) eq_refl A) as U. cbn [app] in U.
              apply IH in A; [|exact G|left; reflexivity|reflexivity]. destruct A as [A1 A2]. split; [|exact A2].
